@@ -114,14 +114,10 @@ class World(BaseWorld):
             if msg:
                 raise self.vio("slot-changed", "slot %s no longer well-typed: %s" % (name, msg))
 
-    def monitor_check(self):
-        if W.MON.fired:
-            msg, cls = W.MON.fired[0]
-            n = len(W.MON.fired)
-            W.MON.fired.clear()
-            self.note("monitor_fired", n)
-            if self.prop == "C07":
-                raise self.vio("monitor", "intermediate %s ill-typed: %s" % (cls, msg))
+    def monitor_check(self, op):
+        fired = self.monitor_after_op(op)
+        if fired and self.prop == "C07":
+            raise self.vio("monitor", "intermediate %s ill-typed: %s" % (fired[1], fired[0]))
 
     def denot_equal(self, m0, m1, seed, what):
         key = (seed, m0)
@@ -160,7 +156,7 @@ class World(BaseWorld):
             out = fn(op)
         except W.load()._verif.InvariantViolation as err:   # only if raise_on_fire
             raise self.vio("monitor", str(err))
-        self.monitor_check()
+        self.monitor_check(op)
         self.note("op_" + op["op"])
         if self.counters["ops_total"] % 8 == 7:
             self.check_slots()
